@@ -9,7 +9,7 @@ export VERIF_REPO=$REPO
 export VERIF_TARGET=${VERIF_TARGET:-$VDIR/target_matrix}
 OUT=$VDIR/seed_matrix.jsonl
 : > "$OUT"
-CHEAP="C05 C09 C10 C11 C12 C13 C15 C17 C18 C19"
+CHEAP="C05 C09 C11 C12 C13 C15 C17"
 cd "$REPO" || exit 2
 for P in "$VDIR"/seeded/*/patch.diff "$VDIR"/mutants/*.diff; do
   NAME=$(basename "$(dirname "$P")"); [ "$NAME" = mutants ] && NAME=$(basename "$P" .diff)
@@ -18,7 +18,9 @@ for P in "$VDIR"/seeded/*/patch.diff "$VDIR"/mutants/*.diff; do
   LINE="{\"seed\":\"$NAME\""
   OWN=$(echo "$NAME" | grep -oE '^C[0-9]+' || true)
   case "$NAME" in prefix-D1*) OWN="C01 C02";; prefix-D4*) OWN=C06;; prefix-D5*|prefix-D6*) OWN=C13;; prefix-D7*) OWN=C15;; prefix-D8*|prefix-D9*) OWN=C16;; esac
-  PROPS=$(echo "$OWN $CHEAP" | tr ' ' '\n' | sort -u | tr '\n' ' ')
+  EXTRA=""
+  case "$NAME" in C07*|C10*|C15*|C06*) EXTRA="C08";; C03*|C09*) EXTRA="C11";; C11-B|C18*) EXTRA="C12 C18";; C04*) EXTRA="C10";; C16*) EXTRA="C07";; esac
+  PROPS=$(echo "$OWN $CHEAP $EXTRA" | tr ' ' '\n' | sort -u | tr '\n' ' ')
   for PR in $PROPS; do
     RES=$("$VDIR/run.sh" $PR quick 2>&1); RC=$?
     NV=$(echo "$RES" | grep -c '^VIOLATION')
